@@ -496,6 +496,43 @@ func random(c *mon.Ctx, r *gen.Rand) {
 	t.finish("random")
 }
 
+// deep builds an open list of 60..200 descriptors (types that nothing closes, and repeated breakaways)
+// before the usual mix of calls: no bound on the number of descriptors open at once is part of the contract.
+func deep(c *mon.Ctx, r *gen.Rand) {
+	t := newTracker(c)
+	pts := uint64(1000)
+	n := r.PickInt([]int{60, 63, 64, 65, 66, 100, 127, 128, 129, 130, 200})
+	for i := 0; i < n && !t.dead; i++ {
+		pts = (pts + 100) & (1<<33 - 1)
+		typ := r.PickByte([]byte{0x01, 0x01, 0x17, 0x17, 0x17, 0x13, 0x19, 0x14})
+		d := mk(typ, uint32(1+r.Intn(2)), pts, true, 1, 1)
+		t.register(d, typ, d.EventID(), pts, true)
+		t.process(d)
+		if r.Chance(16) {
+			t.probe()
+		}
+	}
+	t.pat["open-list-of-60-or-more"] = true
+	for i := 0; i < 12 && !t.dead; i++ {
+		pts = (pts + 100) & (1<<33 - 1)
+		switch r.Intn(4) {
+		case 0:
+			t.probe()
+		case 1:
+			if len(t.all) > 0 {
+				t.close(t.all[r.Intn(len(t.all))])
+			}
+		default:
+			typ := types[r.Intn(len(types))]
+			d := mk(typ, uint32(1+r.Intn(2)), pts, true, 1, 1)
+			t.register(d, typ, d.EventID(), pts, true)
+			t.process(d)
+			t.probe()
+		}
+	}
+	t.finish("deep")
+}
+
 // interleaved drives two trackers in turns with a shared pool of descriptors: nothing may carry over
 // from one tracker to the other.
 func interleaved(c *mon.Ctx, r *gen.Rand) {
@@ -617,4 +654,5 @@ func run(c *mon.Ctx) {
 	}
 	c.Stream("random", c.N(40000, 30000000), func(i int, r *gen.Rand) { random(c, r) })
 	c.Stream("interleaved", c.N(10000, 5000000), func(i int, r *gen.Rand) { interleaved(c, r) })
+	c.Stream("deep", c.N(300, 60000), func(i int, r *gen.Rand) { deep(c, r) })
 }
